@@ -466,6 +466,8 @@ def lineclass(opt, g, c):
         if 'dump of section' in s:
             return 'heading'
         if 'has no data to dump' in s:
+            if g is not None and c is not None and 'has no data to dump' in g and 'has no data to dump' in c:
+                return 'nodata.section_name'      # both say so, but name the section differently
             return 'nodata'
         if 'no strings found' in s:
             return 'nostrings'
@@ -1733,6 +1735,8 @@ def build_random(ch, tier):
         tags = []
         for _ in range(n):
             t = ch.choice(RND_DYN_TAGS + [1, 14, 15, 29, 30, 0x6ffffffb, 20])
+            if t != 1 and any(t == t0 for t0, _v in tags):
+                continue        # only DT_NEEDED may occur more than once in a well-formed dynamic section
             if t in (1, 14, 15, 29):
                 v = ('str', ch.choice(['libc18.so.1', 'libm.so.6', '$ORIGIN/../lib']))
             elif t == 30:
